@@ -17,24 +17,23 @@ import (
 // or the function ends (no dead error store).
 
 var cleanupCallees = map[string]string{
-	"CloseEx":         "moss store close with options (clean-up)",
-	"KeyTo":           "serialises into a buffer the caller sized with KeySize(): cannot fail",
-	"ValueTo":         "serialises into a buffer the caller sized with ValueSize(): cannot fail",
-	"Close":           "closing a resource on a failure/clean-up path; the primary error is already being reported",
-	"DecRef":          "reference release; its error is the Close error of the last holder",
-	"Rollback":        "abandoning a transaction",
-	"closeOpenedSegs": "builder clean-up helper",
-	"Remove":          "best-effort file removal (the purger retries)",
-	"RemoveAll":       "best-effort directory removal",
-	"Write":           "hash.Hash / bytes.Buffer writers never fail",
-	"WriteString":     "strings.Builder / bytes.Buffer writers never fail",
-	"WriteByte":       "strings.Builder / bytes.Buffer writers never fail",
-	"WriteRune":       "strings.Builder / bytes.Buffer writers never fail",
-	"Fprintf":         "diagnostic output",
-	"Fprintln":        "diagnostic output",
-	"Fprint":          "diagnostic output",
-	"Printf":          "diagnostic output",
-	"Println":         "diagnostic output",
+	"CloseEx":     "moss store close with options (clean-up)",
+	"KeyTo":       "serialises into a buffer the caller sized with KeySize(): cannot fail",
+	"ValueTo":     "serialises into a buffer the caller sized with ValueSize(): cannot fail",
+	"Close":       "closing a resource on a failure/clean-up path; the primary error is already being reported",
+	"DecRef":      "reference release; its error is the Close error of the last holder",
+	"Rollback":    "abandoning a transaction",
+	"Remove":      "best-effort file removal (the purger retries)",
+	"RemoveAll":   "best-effort directory removal",
+	"Write":       "hash.Hash / bytes.Buffer writers never fail",
+	"WriteString": "strings.Builder / bytes.Buffer writers never fail",
+	"WriteByte":   "strings.Builder / bytes.Buffer writers never fail",
+	"WriteRune":   "strings.Builder / bytes.Buffer writers never fail",
+	"Fprintf":     "diagnostic output",
+	"Fprintln":    "diagnostic output",
+	"Fprint":      "diagnostic output",
+	"Printf":      "diagnostic output",
+	"Println":     "diagnostic output",
 }
 
 func lastResultIsError(info *types.Info, c *ast.CallExpr) bool {
@@ -287,6 +286,8 @@ func ruleErrorsLookedAt(r *Report, rule string, pkgFilter func(rel string) bool,
 					r.Fn(fi)
 					if why, ok := cleanupCallees[nm]; ok {
 						r.Allow(rule, bu.Name+"/dropped-"+nm, s.Pos(), why)
+					} else if localCleanupClosure(info, fi.Decl.Body, c) {
+						r.Allow(rule, bu.Name+"/dropped-local-cleanup-closure", s.Pos(), "local closure whose only fallible calls are clean-up operations")
 					} else if why, ok := allowFuncs[bu.Name+"/"+nm]; ok {
 						r.Allow(rule, bu.Name+"/dropped-"+nm, s.Pos(), why)
 					} else {
@@ -313,6 +314,8 @@ func ruleErrorsLookedAt(r *Report, rule string, pkgFilter func(rel string) bool,
 					if id.Name == "_" {
 						if why, ok := cleanupCallees[nm]; ok {
 							r.Allow(rule, bu.Name+"/blank-"+nm, s.Pos(), why)
+						} else if localCleanupClosure(info, fi.Decl.Body, c) {
+							r.Allow(rule, bu.Name+"/blank-local-cleanup-closure", s.Pos(), "local closure whose only fallible calls are clean-up operations")
 						} else if why, ok := allowFuncs[bu.Name+"/"+nm]; ok {
 							r.Allow(rule, bu.Name+"/blank-"+nm, s.Pos(), why)
 						} else {
@@ -373,4 +376,40 @@ func identOf(e ast.Expr) *ast.Ident {
 		return id
 	}
 	return &ast.Ident{Name: "_"}
+}
+
+// localCleanupClosure: the call invokes a local closure (v := func() error {...}) whose own
+// error-returning calls are all clean-up operations: such a helper is a clean-up operation itself.
+func localCleanupClosure(info *types.Info, body ast.Node, c *ast.CallExpr) bool {
+	id, ok := ast.Unparen(c.Fun).(*ast.Ident)
+	if !ok {
+		return false
+	}
+	v, ok := info.ObjectOf(id).(*types.Var)
+	if !ok {
+		return false
+	}
+	var lit *ast.FuncLit
+	ast.Inspect(body, func(x ast.Node) bool {
+		if as, ok := x.(*ast.AssignStmt); ok && len(as.Lhs) == 1 && len(as.Rhs) == 1 && objOf(info, as.Lhs[0]) == v {
+			if fl, ok := as.Rhs[0].(*ast.FuncLit); ok {
+				lit = fl
+			}
+		}
+		return true
+	})
+	if lit == nil {
+		return false
+	}
+	n := 0
+	for _, c2 := range callsDeep(lit.Body) {
+		if !lastResultIsError(info, c2) {
+			continue
+		}
+		n++
+		if _, isCleanup := cleanupCallees[calleeShortName(info, c2)]; !isCleanup {
+			return false
+		}
+	}
+	return n > 0
 }
